@@ -109,6 +109,7 @@ func baseFields(name string, topo gts.Topology) seqio.GenBankFields {
 // makeSeq builds the real value for a record description. The storage
 // configuration (for the purity property) is chosen by "store".
 var sharedBufs = map[string][]byte{}
+var sharedTables = map[string]gts.FeatureSlice{}
 
 func makeSeq(m J) gts.Sequence {
 	p := makeResidues(m)
@@ -128,9 +129,16 @@ func makeSeq(m J) gts.Sequence {
 		off := asInt(m["off"])
 		copy(buf[off:], p)
 		p = buf[off : off+len(p)]
-		gg := make(gts.FeatureSlice, len(ff), len(ff)+8)
-		copy(gg, ff)
-		ff = gg
+		// ... and their feature tables are consecutive sub-slices of ONE shared table
+		// (a write past the end of one table lands in the next record's table)
+		tbl, ok := sharedTables[name]
+		if !ok {
+			tbl = make(gts.FeatureSlice, 0, 64)
+		}
+		start := len(tbl)
+		tbl = append(tbl, ff...)
+		sharedTables[name] = tbl
+		ff = tbl[start : start+len(ff)]
 	case "spare":
 		q := make([]byte, len(p), len(p)+64)
 		copy(q, p)
@@ -444,6 +452,7 @@ func (r *seqRunner) apply(op J) (res gts.Sequence, perr interface{}) {
 func (r *seqRunner) runCase(c J) {
 	r.caseID = asStr(c["id"])
 	sharedBufs = map[string][]byte{}
+	sharedTables = map[string]gts.FeatureSlice{}
 	r.recs = map[string]gts.Sequence{}
 	r.order = nil
 	r.pure = asBool(c["pure"])
